@@ -7,7 +7,8 @@
 //!        b  … by `tower::ServiceBuilder::new().layer(GrpcWebClientLayer::default()).service(inner)`
 //!        c  the service value is cloned and the CLONE makes the call (the original is dropped first)
 //!        r  the inner service is not ready at first (`Pending` twice) and panics when it is called
-//!           without having answered `Ready` to `poll_ready`: `poll_ready` must be handed down
+//!           without having answered `Ready` to `poll_ready`: `poll_ready` must be handed down; its
+//!           response future is `Pending` once before it answers
 //!        s  the response body is consumed through its `Stream` impl (`poll_next`)
 //!        n  the inner body's `Data` is a non-contiguous `Buf` (`Chain<Bytes, Bytes>`, cut in the middle)
 //!        a  three more polls after the clean end: `again <k>` = how many of them answered `None`
@@ -77,11 +78,26 @@ pub struct InnerX {
     not_ready: usize,
     ready_seen: bool,
     strict_ready: bool,
+    /// the response future is `Pending` once before it answers
+    slow: bool,
 }
 
 impl Clone for InnerX {
     fn clone(&self) -> Self {
-        InnerX { queue: self.queue.clone(), not_ready: self.not_ready, ready_seen: false, strict_ready: self.strict_ready }
+        InnerX { queue: self.queue.clone(), not_ready: self.not_ready, ready_seen: false, strict_ready: self.strict_ready, slow: self.slow }
+    }
+}
+
+struct YieldOnce(bool);
+impl Future for YieldOnce {
+    type Output = ();
+    fn poll(mut self: Pin<&mut Self>, cx: &mut Context<'_>) -> Poll<()> {
+        if self.0 {
+            return Poll::Ready(());
+        }
+        self.0 = true;
+        cx.waker().wake_by_ref();
+        Poll::Pending
     }
 }
 
@@ -107,7 +123,11 @@ where
         }
         self.ready_seen = false;
         let (head, body) = self.queue.lock().unwrap().pop_front().expect("a queued response");
+        let slow = self.slow;
         Box::pin(async move {
+            if slow {
+                YieldOnce(false).await;
+            }
             let mut resp = Response::new(body);
             if let Some(h) = head {
                 *resp.status_mut() = http::StatusCode::from_u16(h.status).expect("checked");
@@ -211,7 +231,7 @@ fn run_modes(modes: &str, head: Option<RespHead>, evs: Vec<Ev>, hints: bool) -> 
     let sb = ScriptBody::new(evs);
     let run = Run { out: Arc::new(Mutex::new(Vec::new())), after_end: sb.after_end.clone() };
     let queue: Queue = Arc::new(Mutex::new(VecDeque::from(vec![(head, ChainBody { inner: sb, split: has('n') })])));
-    let inner = InnerX { queue, not_ready: if has('r') { 2 } else { 0 }, ready_seen: false, strict_ready: true };
+    let inner = InnerX { queue, not_ready: if has('r') { 2 } else { 0 }, ready_seen: false, strict_ready: true, slow: has('r') };
     let out = run.out.clone();
     let (l, b, c, s, a) = (has('l'), has('b'), has('c'), has('s'), has('a'));
     let r = catch_unwind(AssertUnwindSafe(move || {
@@ -286,14 +306,14 @@ fn run_history(sched: &str, bodies: Vec<(Option<RespHead>, Vec<Ev>)>) -> String 
         q.push_back((head, ChainBody { inner: sb, split: false }));
     }
     let outs: Vec<Arc<Mutex<Vec<String>>>> = runs.iter().map(|r| r.out.clone()).collect();
-    let inner = InnerX { queue: Arc::new(Mutex::new(q)), not_ready: 0, ready_seen: false, strict_ready: true };
+    let inner = InnerX { queue: Arc::new(Mutex::new(q)), not_ready: 0, ready_seen: false, strict_ready: true, slow: sched == "k" };
     let sched = sched.to_string();
     // per call: Ok(true) ended, Ok(false) hang
     let status: Arc<Mutex<Vec<Option<bool>>>> = Arc::new(Mutex::new(vec![None; n]));
     let st2 = status.clone();
     let r = catch_unwind(AssertUnwindSafe(move || {
         let mut svc = tonic_web::GrpcWebClientService::new(inner);
-        let mut call = |svc: &mut tonic_web::GrpcWebClientService<InnerX>, i: usize| -> Option<Pin<Box<WebBody>>> {
+        let call = |svc: &mut tonic_web::GrpcWebClientService<InnerX>, i: usize| -> Option<Pin<Box<WebBody>>> {
             block_on(std::future::poll_fn(|cx| Service::<Request<ScriptBody>>::poll_ready(svc, cx)))?;
             let res = block_on(svc.call(request()))?;
             let (parts, body) = res.unwrap().into_parts();
@@ -540,9 +560,21 @@ pub fn generate(thorough: bool, rng: &mut Rng, out: &mut Vec<String>) {
         out.push(format!("cls {} {} / {}", sched, seg(None, &fixed[11]), seg(None, &fixed[1])));
         out.push(format!("cls {} {} / {}", sched, seg(None, &fixed[7]), seg(None, &fixed[0])));
     }
+    // a response cut off at every byte (error paths leave bytes in the buffer), then a good one on the same service
+    if let Ev::Data(body) = &fixed[0][0] {
+        for cut in 0..body.len() {
+            if !thorough && cut % 3 != 1 && cut > 12 {
+                continue;
+            }
+            let sched = ["q", "i", "k"][cut % 3];
+            let first = vec![Ev::Data(body[..cut].to_vec())];
+            out.push(format!("cls {} {} / {}", sched, seg(None, &first), seg(None, &fixed[0])).replace("  ", " "));
+            out.push(format!("cls q {} / {} / {}", seg(None, &first), seg(None, &fixed[3]), seg(None, &fixed[5])).replace("  ", " "));
+        }
+    }
     let n = if thorough { 2000 } else { 200 };
     for _ in 0..n {
-        let sched = *rng.pick(&["q", "i", "v", "k"]);
+        let sched = *rng.pick(&["q", "q", "i", "v", "k"]);
         let k = rng.range(2, 4);
         let mut segs = Vec::new();
         for _ in 0..k {
